@@ -64,7 +64,7 @@ ASSUMPTIONS = [
 ]
 REQUIRED = {
     "net2d": 0.2, "net3d": 0.1, "txt": 0.25, "csv-tagged": 0.08, "2d-via-direct": 0.06, "2d-via-tagcols": 0.04,
-    "2d-via-polyline": 0.015, "2d-max-num-fracs": 0.025, "2d-return-frac-id": 0.06, "3d-tagged": 0.03,
+    "2d-via-polyline": 0.015, "2d-max-num-fracs": 0.025, "2d-return-frac-id": 0.06, "3d-tagged": 0.03, "csv-3d-modified-before-write": 0.025,
     "2d-shared-endpoint": 0.04, "2d-header": 0.06, "2d-noheader": 0.06, "2d-domain": 0.06,
     "3d-domain": 0.04, "3d-nodomain": 0.04, "3d-ellipse": 0.06, "3d-rect": 0.04,
     "txt-multi-column": 0.15, "txt-single-row": 0.03, "txt-exact-format": 0.1, "txt-default-format": 0.1,
@@ -149,7 +149,23 @@ def _net3d(draw):
     polys = draw(st.lists(_poly(), min_size=1, max_size=2 if convexity else 4))
     tagged = draw(st.booleans())
     tags = [[draw(_tag) for _ in range(draw(st.integers(0, 3)))] if tagged else [] for _ in polys]
+    # fractures modified between construction of the network and writing it
+    modify = []
+    mod_any = draw(st.booleans())
+    for pl in polys:
+        kind = draw(st.sampled_from(["none", "shift", "addmid"])) if mod_any else "none"
+        if kind == "shift":
+            modify.append({"op": "shift", "v": [draw(st.integers(-8, 8)) / 4.0 for _ in range(3)],
+                           "f": draw(st.sampled_from([1.0, 0.5, 2.0]))})
+        elif kind == "addmid":
+            nv = 4 if pl["type"] == "rect" else pl["n"]
+            modify.append({"op": "addmid", "edge": draw(st.integers(0, nv - 1))})
+        else:
+            modify.append(None)
+    if any(m is not None and m["op"] == "addmid" for m in modify):
+        convexity = False  # a vertex on an edge: weakly convex, leave sympy's strict test out of it
     return {"kind": "net3d", "polys": polys, "domain": draw(st.booleans()), "convexity": convexity, "tags": tags,
+            "modify": modify,
             "tol": draw(st.sampled_from([None, None, 1e-6]))}
 
 
@@ -394,6 +410,23 @@ def _check_net3d(s, d):
         if t:
             fr.tags = np.asarray(t, dtype=np.int32)  # the documented tag attribute of a fracture
     net = pp.create_fracture_network(fracs)
+    # modifications after construction; `verts` follows, so that the oracle is the network as it stands when written
+    modified = False
+    for i, m in enumerate(s.get("modify") or []):
+        if m is None:
+            continue
+        modified = True
+        fr = net.fractures[i]
+        if m["op"] == "shift":
+            c = verts[i].mean(axis=1, keepdims=True)
+            verts[i] = c + m["f"] * (verts[i] - c) + np.array(m["v"], dtype=float).reshape(3, 1)
+            fr.pts = verts[i].copy()  # direct assignment to the public vertex array
+        else:
+            k = m["edge"] % verts[i].shape[1]
+            k1 = (k + 1) % verts[i].shape[1]
+            mid = 0.5 * (verts[i][:, k] + verts[i][:, k1])
+            fr.add_points(mid.reshape(3, 1).copy(), check_convexity=False)
+            verts[i] = np.insert(verts[i], k + 1, mid, axis=1)
     dom = None
     if s["domain"]:
         dom = pp.Domain({"xmin": -10.0, "xmax": 10.5, "ymin": -11.25, "ymax": 10.0, "zmin": -10.1, "zmax": 12.0})
@@ -410,6 +443,8 @@ def _check_net3d(s, d):
     labels = ["net3d", "3d-domain" if s["domain"] else "3d-nodomain"]
     if any(len(t) for t in tags3):
         labels += ["3d-tagged", "csv-tagged"]
+    if modified:
+        labels.append("csv-3d-modified-before-write")
     labels += sorted({"3d-" + p["type"] for p in s["polys"]})
     if s["convexity"]:
         labels.append("3d-convexity-check")
